@@ -13,8 +13,8 @@ import Chrono.Model.ParsedCore
 import Chrono.Model.DateTime
 import Chrono.Spec.DateSpec
 import Chrono.Spec.TimeSpec
-namespace Chrono.Spec
-open Chrono.M Chrono.Extracted
+namespace Chrono.Spec.Fields
+open Chrono.M Chrono.Extracted Chrono.Spec
 
 /-- a supplied field has the value `v` -/
 def optIs (o : Option Int) (v : Int) : Prop := ∀ x, o = some x → x = v
@@ -121,4 +121,4 @@ where
   instSecsLocal (dt : NaiveDT) : Int :=
     (dayNumYo dt.date.year dt.date.ordinal - 719163) * 86400 + dt.time.secs
 
-end Chrono.Spec
+end Chrono.Spec.Fields
